@@ -51,11 +51,11 @@ PROP = dict(
                  "Config.Reload calls its callbacks synchronously when the files changed (harness double)", "monitor jitter stays within 0.9..1.1 of the interval"],
     stages=[
         dict(kind="walk", name="bus", module="PubSub", pkg="pubsub", test="TestVerifCX1Bus", harness=_HB,
-             alternatives=_alts(("bus_q", "bus_t")), budget={"quick": 5, "thorough": 40}, maxwalk=40),
+             alternatives=_alts(("bus_q", "bus_t")), budget={"quick": 5, "thorough": 30}, maxwalk=40),
         dict(kind="walk", name="watcher", module="PubSub", pkg="internal/configwatcher", test="TestVerifCX1Watcher", harness=_HW,
-             alternatives=_alts(("cw_q", "cw_t"), dead=False), budget={"quick": 4, "thorough": 30}, maxwalk=40),
+             alternatives=_alts(("cw_q", "cw_t"), dead=False), budget={"quick": 4, "thorough": 25}, maxwalk=40),
         dict(kind="walk", name="watcher-stop", module="PubSub", pkg="internal/configwatcher", test="TestVerifCX1Watcher", harness=_HW, tiers=("thorough",),
-             alternatives=_alts(("cwstop_t", "cwstop_t")), budget={"thorough": 20}, maxwalk=40),
+             alternatives=_alts(("cwstop_t", "cwstop_t")), budget={"thorough": 15}, maxwalk=40),
         dict(kind="trace", name="TracePubSub", module="TracePubSub", cfg=["TracePubSub_ideal.cfg", "TracePubSub_code.cfg"], pkg="pubsub",
              test="TestVerifCX1Trace", harness=_HT, race=True, race_oracle=True),
         _tlc("step-code-2pub", "MC_PubSub_step_code_q.cfg"),      # two concurrent publishers, one slot
@@ -67,6 +67,5 @@ PROP = dict(
         _tlc("watcher-mc", "MC_PubSub_cw_mc.cfg"),
         _tlc("watcher-ideal-mc", "MC_PubSub_cw_ideal_mc.cfg"),
         _tlc("step-live", "MC_PubSub_step_live.cfg", workers=4),
-        _tlc("step-ideal-live", "MC_PubSub_step_ideal_live.cfg", workers=4),
     ],
 )
